@@ -80,8 +80,14 @@ struct Ctx {
     t0: tokio::time::Instant,
 }
 
+/// mode "pty" runs in real time: the specification's clock never advances there (no step waits for a timer)
+static FROZEN_CLOCK: std::sync::atomic::AtomicBool = std::sync::atomic::AtomicBool::new(false);
+
 impl Ctx {
     fn now_ms(&self) -> u64 {
+        if FROZEN_CLOCK.load(Ordering::SeqCst) {
+            return 0;
+        }
         (tokio::time::Instant::now() - self.t0).as_millis() as u64
     }
 }
@@ -785,6 +791,104 @@ async fn run_task_scenario(sc: &Scenario, sink: &Sink) {
     sink.emit(json!({"e":"q"}));
 }
 
+// ------------------------------------------------------------------ mode "pty": the RTU channel task on a real serial device
+/// The production RTU channel task (create_rtu_client_task) opens the slave side of a pseudo-terminal through
+/// tokio_serial (no port opener is installed); the harness is the bus on the master side. Recorded with the
+/// events of the session-level engine; nothing in these scripts waits for a timer.
+async fn run_pty_scenario(sc: &Scenario, sink: &Sink) {
+    use vharness::pty::*;
+    FROZEN_CLOCK.store(true, Ordering::SeqCst);
+    let ctx = Ctx { sink: sink.clone(), t0: tokio::time::Instant::now() };
+    sink.emit(json!({"e":"cfg","id":sc.id,"mode":"session","framing":"rtu","queue":sc.queue,
+        "max_timeouts":0,"retry":sc.retry,"txid0":0}));
+    let pty = match open_pty() {
+        Some(p) => p,
+        None => {
+            sink.emit(json!({"e":"stuck","why":"no pseudo-terminal available"}));
+            return;
+        }
+    };
+    let (channel, task) = create_rtu_client_task(
+        &pty.path,
+        SerialSettings::default(),
+        sc.queue,
+        doubling_retry_strategy(Duration::from_millis(50), Duration::from_millis(50)),
+        decode_level(&sc.decode),
+        None,
+    );
+    let task = tokio::spawn(task.run());
+    let quiet = |got: &mut Vec<u8>| {
+        let mut last = sink.progress();
+        let mut since = std::time::Instant::now();
+        let t0 = std::time::Instant::now();
+        while since.elapsed() < Duration::from_millis(50) && t0.elapsed() < Duration::from_secs(5) {
+            let n = pty.read_some(got);
+            let p = sink.progress();
+            if n > 0 || p != last {
+                last = p;
+                since = std::time::Instant::now();
+            }
+            std::thread::sleep(Duration::from_millis(2));
+        }
+    };
+    for st in &sc.steps {
+        match st.op.as_str() {
+            "cmd" if st.kind == "enable" => {
+                sink.emit(json!({"e":"cmd","kind":"enable"}));
+                let _ = channel.enable().await;
+                // the task opens and configures the device before anything is put on the bus
+                tokio::time::sleep(Duration::from_millis(250)).await;
+            }
+            "cmd" if st.kind == "decode" => {
+                sink.emit(json!({"e":"cmd","kind":"decode"}));
+                let _ = channel.set_decode_level(decode_level(&st.level)).await;
+            }
+            "submit" => {
+                sink.emit(json!({"e":"submit","r":st.r,"style":st.style,"fc":st.fc,"unit":st.unit,"start":st.start,
+                    "count": if st.fc == 15 || st.fc == 16 { st.values.len() as u32 } else if st.fc == 5 || st.fc == 6 { 1 } else { st.count },
+                    "values":st.values,"timeout":st.timeout}));
+                if st.style == "callback" {
+                    tokio::spawn(submit_callback(ctx.clone(), channel.clone(), st.clone()));
+                } else {
+                    tokio::spawn(submit_future(ctx.clone(), channel.clone(), st.clone()));
+                }
+            }
+            "reply" | "peer" => {
+                let bytes = if st.op == "reply" {
+                    let mut b = vec![st.unit];
+                    b.extend_from_slice(&st.pdu);
+                    let c = crc16(&b);
+                    b.push(c as u8);
+                    b.push((c >> 8) as u8);
+                    b
+                } else {
+                    st.bytes.clone()
+                };
+                sink.emit(json!({"e":"peer","bytes":bytes_json(&bytes)}));
+                if !pty.write_all(&bytes) {
+                    sink.emit(json!({"e":"stuck","why":"the bus does not take the bytes"}));
+                    return;
+                }
+            }
+            _ => continue,
+        }
+        let mut got = Vec::new();
+        // (the submitting tasks run on other worker threads; block this one while watching the bus)
+        tokio::task::block_in_place(|| quiet(&mut got));
+        if !got.is_empty() {
+            sink.emit(json!({"e":"tx","bytes":bytes_json(&got)}));
+        }
+        sink.emit(json!({"e":"q"}));
+    }
+    sink.emit(json!({"e":"cmd","kind":"abort"}));
+    task.abort();
+    tokio::time::sleep(Duration::from_millis(50)).await;
+    drop(channel);
+    tokio::time::sleep(Duration::from_millis(50)).await;
+    sink.emit(json!({"e":"q"}));
+    FROZEN_CLOCK.store(false, Ordering::SeqCst);
+}
+
 fn crc16(data: &[u8]) -> u16 {
     let mut crc: u16 = 0xFFFF;
     for b in data {
@@ -811,6 +915,12 @@ fn main() {
         }
         let sc: Scenario = serde_json::from_str(&line).expect("scenario json");
         wd.scenario(sc.id);
+        if sc.mode == "pty" {
+            let rt = tokio::runtime::Builder::new_multi_thread().worker_threads(3).enable_all().build().unwrap();
+            rt.block_on(run_pty_scenario(&sc, &sink));
+            rt.shutdown_timeout(Duration::from_millis(300));
+            continue;
+        }
         // a fresh runtime per scenario: the paused clock starts at zero
         let rt = tokio::runtime::Builder::new_current_thread()
             .enable_time()
